@@ -424,14 +424,41 @@ impl Instance {
     /// Runs the real scheduler loop until no task is due.
     pub fn run_scheduler(&self) {
         self.enter();
-        let (_tx, rx) = mpsc::sync_channel::<()>(1);
-        let (tx2, rx2) = mpsc::channel::<()>();
-        // `run` wants a plain `Receiver`; keep the sender alive meanwhile.
-        let _keep = tx2;
-        let _ = rx;
+        let (tx, rx) = mpsc::channel::<()>();
         krill::server::scheduler::verif_run(
-            SlowKrillRuntime::new(self.rt().clone()), rx2
+            SlowKrillRuntime::new(self.rt().clone()), rx
         );
+        drop(tx);
+    }
+
+    /// Runs the real scheduler loop for at most one task.
+    ///
+    /// Returns whether a task was claimed. The loop is stopped through its
+    /// own shutdown channel, which the kv hook signals when the task is
+    /// claimed.
+    pub fn run_scheduler_step(&self) -> bool {
+        self.enter();
+        let (tx, rx) = mpsc::channel::<()>();
+        let before = {
+            let mut st = hooks::state();
+            st.step_tx = Some(tx.clone());
+            st.tasks_claimed
+        };
+        let res = std::panic::catch_unwind(std::panic::AssertUnwindSafe(|| {
+            krill::server::scheduler::verif_run(
+                SlowKrillRuntime::new(self.rt().clone()), rx
+            );
+        }));
+        let after = {
+            let mut st = hooks::state();
+            st.step_tx = None;
+            st.tasks_claimed
+        };
+        drop(tx);
+        if let Err(payload) = res {
+            std::panic::resume_unwind(payload);
+        }
+        after > before
     }
 
     /// Returns `(due_millis, key)` of all pending tasks.
